@@ -459,12 +459,26 @@ fn m5(cfg: &Cfg, log: &mut Log) {
       let f3 = hf.get_eight_char().get_name();
       let f2 = hf.get_sixty_cycle_hour().get_sixty_cycle().get_name();
       let f1 = format!("{}", hf.get_solar_time());
-      ((a1, a2), (b1, b2), (c1, c2), d2 == d2w, (e1, e2, e3), (f1, f2, f3))
+      // stepping from the warm values must give what a fresh construction of the target gives
+      let k = (sod % 57) as isize - 28;
+      let describe_day = |x: &LunarDay| {
+        let v = x.get_sixty_cycle_day();
+        format!("{} {} {} {} {}", fmt_lymd(lymd(x)), fmt_ymd(ymd(&x.get_solar_day())), fmt_ymd(ymd(&v.get_solar_day())), v.get_sixty_cycle().get_name(), x.get_duty().get_name())
+      };
+      let stepped_day = describe_day(&l.next(k));
+      let fresh_day = describe_day(&sd_of_dn(day + k as i64).get_lunar_day());
+      let describe_hour = |x: &LunarHour| {
+        let v = x.get_sixty_cycle_hour();
+        format!("{} {} {} {} {}", fmt_lymd(lymd(&x.get_lunar_day())), x.get_solar_time(), v.get_solar_time(), v.get_day().get_name(), x.get_eight_char().get_name())
+      };
+      let stepped_hour = describe_hour(&h.next(k));
+      let fresh_hour = describe_hour(&st_of_abs(day * 86400 + sod + 7200 * k as i64).get_lunar_hour());
+      ((a1, a2), (b1, b2), (c1, c2), d2 == d2w && stepped_day == fresh_day && stepped_hour == fresh_hour, (e1, e2, e3), (f1, f2, f3))
     });
     match r {
       Ok((a, b, cc, d, e, f)) => {
         if a != b || a != cc || !d || e != f {
-          log.violate(format!("C10/memo/{}", cal::fmt_dn(day)), "per-value memos", cal::fmt_dn(day), format!("{:?} {:?} {:?} {} {:?} {:?}", a, b, cc, d, e, f), "identical answers in any call order, on clones taken before and after the first derived call".into());
+          log.violate(format!("C10/memo/{}", cal::fmt_dn(day)), "per-value memos", cal::fmt_dn(day), format!("{:?} {:?} {:?} {} {:?} {:?}", a, b, cc, d, e, f), "identical answers in any call order, on clones taken before and after the first derived call, and after stepping from a value with filled memos".into());
         }
       }
       Err(msg) => log.violate(format!("C10/memo/{}", cal::fmt_dn(day)), "per-value memos", cal::fmt_dn(day), format!("panic: {}", msg), "no panic".into()),
